@@ -107,6 +107,13 @@ class LazyRng(struct.PyTreeNode):
     return LazyRng(key, ())
 
 
+def _copy_plain_dicts(x: Any) -> Any:
+  """Copies the (nested) plain dicts of ``x``; everything else is shared."""
+  if type(x) is dict:
+    return {k: _copy_plain_dicts(v) for k, v in x.items()}
+  return x
+
+
 def _fold_in_static(
   rng: PRNGKey, data: typing.Collection[PRNGFoldable]
 ) -> PRNGKey:
@@ -797,7 +804,9 @@ class Scope:
         for k, v in val.items():
           put(target[key], k, v)
       else:
-        target[key] = val
+        # later writes merge into a stored dict in place: store a copy, so that
+        # they cannot reach a dict the caller still holds.
+        target[key] = _copy_plain_dicts(val)
 
     put(variables, name, value)
 
